@@ -1,6 +1,175 @@
-(* Proofs about the RTPS wire model (C08 round trip, C07 totality and cost). *)
+(* Basic lemmas about the parser monad and the primitive readers of the RTPS wire model:
+   result on an encoded prefix (for C08), absence of panics and cost (for C07). *)
 From DustDDS Require Import Base.Machine Base.Bytes Wire.WireModel.
 Open Scope Z_scope.
+Ltac Zify.zify_post_hook ::= Z.div_mod_to_equations.
 
-Lemma placeholder_u32 : forall x, in_u32 x -> dec_le (enc_le 4 x) = x.
-Proof. exact u32_le_roundtrip. Qed.
+(* ------------------------------------------------------------------ lists *)
+Lemma firstn_length_min : forall A n (l : list A), length (firstn n l) = Nat.min n (length l).
+Proof. intros; apply firstn_length. Qed.
+
+Lemma shorter_spec : forall s n, shorter s n = (len s <? n).
+Proof.
+  intros s n; unfold shorter, len. rewrite firstn_length.
+  destruct (Z.ltb_spec (Z.of_nat (length s)) n) as [H|H].
+  - apply Nat.ltb_lt. lia.
+  - apply Nat.ltb_ge. lia.
+Qed.
+
+Lemma firstn_app_exact : forall A (a b : list A) n, length a = n -> firstn n (a ++ b) = a.
+Proof.
+  intros A a b n H; subst n. rewrite firstn_app, Nat.sub_diag, firstn_all. cbn [firstn]. apply app_nil_r.
+Qed.
+Lemma skipn_app_exact : forall A (a b : list A) n, length a = n -> skipn n (a ++ b) = b.
+Proof.
+  intros A a b n H; subst n. rewrite skipn_app, Nat.sub_diag, skipn_all. reflexivity.
+Qed.
+Lemma skipn_skipn : forall A (a b : nat) (l : list A), skipn a (skipn b l) = skipn (b + a) l.
+Proof.
+  intros A a b; induction b as [|b IH]; intros l; [reflexivity|].
+  destruct l as [|x t]; cbn [skipn Nat.add].
+  - apply skipn_nil.
+  - apply IH.
+Qed.
+Lemma len_firstn_le : forall A n (l : list A), len (firstn n l) <= len l.
+Proof. intros; unfold len; rewrite firstn_length; lia. Qed.
+Lemma len_skipn : forall A n (l : list A), len (skipn n l) = len l - Z.of_nat (Nat.min n (length l)).
+Proof. intros; unfold len; rewrite skipn_length; lia. Qed.
+Lemma len_skipn_le : forall A n (l : list A), len (skipn n l) <= len l.
+Proof. intros; rewrite len_skipn; lia. Qed.
+Lemma len_repeat : forall A (x : A) n, len (repeat x n) = Z.of_nat n.
+Proof. intros; unfold len; rewrite repeat_length; reflexivity. Qed.
+
+(* ------------------------------------------------------------ monad: results *)
+Lemma pbind_ok : forall A B (p : parser A) (f : A -> parser B) s a s',
+  fst (p s) = Ok (a, s') -> fst (pbind p f s) = fst (f a s').
+Proof.
+  intros A B p f s a s' H; unfold pbind.
+  destruct (p s) as [r c]; cbn [fst] in H; subst r.
+  destruct (f a s'); reflexivity.
+Qed.
+Lemma pbind_err : forall A B (p : parser A) (f : A -> parser B) s e,
+  fst (p s) = Err e -> fst (pbind p f s) = Err e.
+Proof.
+  intros A B p f s e H; unfold pbind.
+  destruct (p s) as [r c]; cbn [fst] in H; subst r. reflexivity.
+Qed.
+Lemma pbind_panic : forall A B (p : parser A) (f : A -> parser B) s e,
+  fst (p s) = Panic e -> fst (pbind p f s) = Panic e.
+Proof.
+  intros A B p f s e H; unfold pbind.
+  destruct (p s) as [r c]; cbn [fst] in H; subst r. reflexivity.
+Qed.
+(* inversion of a successful bind *)
+Lemma pbind_inv_ok : forall A B (p : parser A) (f : A -> parser B) s b s2,
+  fst (pbind p f s) = Ok (b, s2) ->
+  exists a s1, fst (p s) = Ok (a, s1) /\ fst (f a s1) = Ok (b, s2).
+Proof.
+  intros A B p f s b s2; unfold pbind.
+  destruct (p s) as [[[a s1]|e|x] c]; cbn [fst].
+  - destruct (f a s1) as [r c'] eqn:E; cbn [fst]; intros H. exists a, s1. rewrite E. auto.
+  - discriminate.
+  - discriminate.
+Qed.
+Lemma pbind_inv_panic : forall A B (p : parser A) (f : A -> parser B) s x,
+  fst (pbind p f s) = Panic x ->
+  fst (p s) = Panic x \/ exists a s1, fst (p s) = Ok (a, s1) /\ fst (f a s1) = Panic x.
+Proof.
+  intros A B p f s x; unfold pbind.
+  destruct (p s) as [[[a s1]|e|y] c]; cbn [fst].
+  - destruct (f a s1) as [r c'] eqn:E; cbn [fst]; intros H. right. exists a, s1. rewrite E. auto.
+  - discriminate.
+  - intros H; left; inversion H; reflexivity.
+Qed.
+
+(* ------------------------------------------------------------- no panic *)
+Definition np {A} (p : parser A) : Prop := forall s, is_panic (fst (p s)) = false.
+
+Lemma np_pret : forall A (a : A), np (pret a).
+Proof. intros A a s; reflexivity. Qed.
+Lemma np_perr : forall A e, np (@perr A e).
+Proof. intros A e s; reflexivity. Qed.
+Lemma np_ptick : forall n, np (ptick n).
+Proof. intros n s; reflexivity. Qed.
+Lemma np_bind : forall A B (p : parser A) (f : A -> parser B),
+  np p -> (forall a, np (f a)) -> np (pbind p f).
+Proof.
+  intros A B p f Hp Hf s; unfold pbind. specialize (Hp s).
+  destruct (p s) as [[[a s1]|e|y] c]; cbn [fst] in *.
+  - specialize (Hf a s1). destruct (f a s1) as [r c']; exact Hf.
+  - reflexivity.
+  - discriminate.
+Qed.
+Lemma np_read_n : forall n, np (read_n n).
+Proof. intros n s; unfold read_n; destruct (shorter s (Z.of_nat n)); reflexivity. Qed.
+Lemma np_if : forall A (b : bool) (p q : parser A), np p -> np q -> np (if b then p else q).
+Proof. intros; destruct b; auto. Qed.
+
+Ltac np_tac :=
+  repeat first
+    [ apply np_pret | apply np_perr | apply np_ptick | apply np_read_n
+    | apply np_if | (apply np_bind; [| intros ?]) ].
+
+Lemma np_read_u16 : forall le, np (read_u16 le).
+Proof. intros; unfold read_u16; np_tac. Qed.
+Lemma np_read_i16 : forall le, np (read_i16 le).
+Proof. intros; unfold read_i16; np_tac. Qed.
+Lemma np_read_u32 : forall le, np (read_u32 le).
+Proof. intros; unfold read_u32; np_tac. Qed.
+Lemma np_read_i32 : forall le, np (read_i32 le).
+Proof. intros; unfold read_i32; np_tac. Qed.
+Lemma np_read_sn : forall le, np (read_sn le).
+Proof. intros; unfold read_sn. apply np_bind; [apply np_read_i32|intros]. apply np_bind; [apply np_read_u32|intros]. apply np_pret. Qed.
+Lemma np_read_entity_id : np read_entity_id.
+Proof. unfold read_entity_id; np_tac. Qed.
+Lemma np_read_words : forall le n, np (read_words le n).
+Proof.
+  intros le n; induction n; cbn [read_words]; [apply np_pret|].
+  apply np_bind; [apply np_read_i32|intros]. apply np_bind; [exact IHn|intros]. apply np_pret.
+Qed.
+Lemma np_read_bitmap : forall le nb, np (read_bitmap le nb).
+Proof. intros; unfold read_bitmap. apply np_bind; [apply np_read_words|intros; apply np_pret]. Qed.
+Lemma np_read_snset : forall le, np (read_snset le).
+Proof.
+  intros; unfold read_snset. apply np_bind; [apply np_read_sn|intros].
+  apply np_bind; [apply np_read_u32|intros]. apply np_if; [apply np_perr|].
+  apply np_bind; [apply np_read_bitmap|intros; apply np_pret].
+Qed.
+Lemma np_read_locator : forall le, np (read_locator le).
+Proof.
+  intros; unfold read_locator. apply np_bind; [apply np_read_i32|intros].
+  apply np_bind; [apply np_read_u32|intros]. apply np_bind; [apply np_read_n|intros; apply np_pret].
+Qed.
+Lemma np_read_locs : forall le n, np (read_locs le n).
+Proof.
+  intros le n; induction n; cbn [read_locs]; [apply np_pret|].
+  apply np_bind; [apply np_read_locator|intros]. apply np_bind; [apply np_ptick|intros].
+  apply np_bind; [exact IHn|intros; apply np_pret].
+Qed.
+Lemma np_read_locator_list : forall le, np (read_locator_list le).
+Proof.
+  intros le s; unfold read_locator_list.
+  apply (np_bind _ _ (read_u32 le) (fun n s' => read_locs le (Z.to_nat (Z.min n (len s' / 24 + 1))) s')).
+  - apply np_read_u32.
+  - intros n s'. apply np_read_locs.
+Qed.
+Lemma np_read_param : forall le, np (read_param le).
+Proof.
+  intros le s; unfold read_param.
+  destruct (shorter s 4); [reflexivity|].
+  destruct (negb _ && negb _); [reflexivity|].
+  destruct (_ =? PID_SENTINEL); [reflexivity|].
+  destruct (shorter _ _); reflexivity.
+Qed.
+Lemma np_read_params : forall le n, np (read_params le n).
+Proof.
+  intros le n; induction n; cbn [read_params]; [apply np_pret|].
+  apply np_bind; [apply np_read_param|intros p].
+  apply np_if; [apply np_pret|].
+  apply np_bind; [apply np_ptick|intros]. apply np_bind; [exact IHn|intros; apply np_pret].
+Qed.
+Lemma np_read_param_list : forall le, np (read_param_list le).
+Proof. intros; apply np_read_params. Qed.
+
+Lemma run_panic : forall A (p : parser A) v, is_panic (fst (run p v)) = is_panic (fst (p v)).
+Proof. intros; unfold run; destruct (p v) as [[[a s]|e|x] c]; reflexivity. Qed.
